@@ -210,7 +210,7 @@ where
                         .map_err(CodecError::DecompressFailure)?;
                 }
 
-                let batch = decode_message_batch(bytes);
+                let batch = decode_message_batch(bytes)?;
                 self.message_batch = Some(batch);
                 self.poll_next(cx)
             }
